@@ -83,7 +83,7 @@ META["C11"] = {
 META["C12"] = {
     "text": "Property-based exploration of both directions of the hash-envelope API against an independent statement of the envelope rules evaluated on wire bytes: producer closure (whatever SignHashEnvelope emits is conforming, verifies, returns the given values, caller's maps untouched) and consumer soundness (VerifyHashEnvelope returns a message only for conforming, validly signed envelopes built by the reference).",
     "note": TRUST,
-    "technique": "property-based testing (rapid); oracle: reference envelope-rule judge on wire bytes + reference signer/verifier + deep-dump immutability of caller inputs",
+    "technique": "property-based testing (rapid) + native go fuzzing of the consumer side (thorough tier); oracle: reference envelope-rule judge on wire bytes + reference signer/verifier + deep-dump immutability of caller inputs",
 }
 
 META["C14"] = {
